@@ -58,6 +58,26 @@ func runC02(c *Ctx) {
 	}
 	// ---- the two internal opens
 	for _, name := range []string{"(*chacha20poly1305).openGeneric", "(*chacha20poly1305).open"} {
+		if c.cfg != "" && name == "(*chacha20poly1305).open" {
+			// build configurations without the amd64 assembly: open is a one-line
+			// wrapper returning openGeneric's verdict (checked as a delegation)
+			if f := c.fn(cp, name); f != nil {
+				cs := calls(f, func(n string) bool { return strings.HasSuffix(n, "chacha20poly1305).openGeneric") })
+				ok := len(cs) == 1 && len(f.Blocks) == 1
+				if ok {
+					for _, r := range returnsOf(f) {
+						for i := range r.Results {
+							ex, isE := retVal(r, i).(*ssa.Extract)
+							if !isE || ex.Tuple != callValue(cs[0]) || ex.Index != i {
+								ok = false
+							}
+						}
+					}
+				}
+				c.check(ok, "C02.tag-gate", cp+"."+name+" (portable build)", f, "returns openGeneric's result verbatim", "the portable open does not return openGeneric's verdict verbatim")
+			}
+			continue
+		}
 		f := c.fn(cp, name)
 		if f == nil {
 			continue
